@@ -166,6 +166,9 @@ func (p *parser) parseBinaryExpr(left Node) Node {
 	if expType == EMPTY_ARRAY {
 		binaryExp.T = binaryExp.Right.Type() // array concatenation e.g. [] + [1 2]
 	}
+	if expType.Name == ARRAY && binaryExp.Right.Type().hasFixed() {
+		binaryExp.T = fixedType(binaryExp.T) // not a constant, e.g. [1] + arr
+	}
 	p.validateBinaryType(binaryExp)
 	if p.isWSS() {
 		p.formatting.recordWSS(binaryExp)
